@@ -107,7 +107,7 @@ def models_draw(draw):
 
 
 PROF = gen.Profile(kinds=["task"] * 4 + ["region"] * 3 + ["idle"] * 2 + ["state"] * 2 + ["affinity"],
-                   models=models_draw, max_looms=1, max_procs=2, max_threads=3, max_cpus=4, min_threads=2,
+                   models=models_draw, max_looms=2, max_procs=2, max_threads=3, max_cpus=4, min_threads=2,
                    steps=(10, 80), modes=("legal",), lint=False, breakdown=True, unwind=False,
                    flags=["-b"])
 
